@@ -772,6 +772,11 @@ class ConditionBinaryOp(ConditionLike):
         return null_condition_binary_check(*conditions) or super().__new__(cls)
 
     def __init__(self, *conditions):
+        if null_condition_binary_check(*conditions) is not None:
+            # `__new__` returned one of the operands instead of a new object; Python still
+            # calls `__init__` on it if it is an instance of this class: leave it alone.
+            return
+
         super().__init__()
 
         self.children = conditions
